@@ -583,7 +583,7 @@ def _c04_gen(con, sigcase, count, seed):
     quick = count <= 200
     for src in _source_list(quick):
         for hist in C04_HISTORIES:
-            for target in ("path", "bytesio"):
+            for target in ("path", "bytesio", "bytesio-pretty"):
                 yield dict(source=src, history=hist, target=target)
 
 
@@ -669,8 +669,10 @@ def _c04_call(con, fn, argvals, labels):
                     data = fh.read()
                 handle = p
             else:
+                # "bytesio-pretty": every save of the history is pretty-printed (layout only, C11); the package
+                # must be as coherent as the plain one
                 buf = io.BytesIO()
-                doc.save(buf)
+                doc.save(buf, pretty=(target == "bytesio-pretty"))
                 data = buf.getvalue()
                 handle = buf
             saved.append((f"save {k} ({tag})", data))
@@ -798,8 +800,8 @@ contract(
               "files, add then del_part, del_part of an existing part, image frame (same image once / twice), "
               "merge_styles_from(background.odp) once / twice, clone, add_file then clone, save-reopen-add, "
               "add-save-reopen-add same, save twice, del-save-reopen-save, clone then add_file on the clone / del_part on the original or the "
-              "clone with both documents saved, add-del-add of the same content} x target {path, BytesIO}; every zip written "
-              "along the history is checked",
+              "clone with both documents saved, add-del-add of the same content} x target {path, BytesIO, BytesIO with every save "
+              "pretty-printed}; every zip written along the history is checked",
         reason="zipfile entry list and lxml manifest are outside the executor's fragment; COH(doc) invariant of DESIGN C04 "
                "is not closed"),
 )
